@@ -401,6 +401,33 @@ def line_smoother(ctx, mod, fname, line):
     return nrows
 
 
+def _affine(e):
+    """Integer-affine form {name: coefficient, 1: constant} of an index
+    expression, or None."""
+    if isinstance(e, ast.Constant) and isinstance(e.value, int):
+        return {1: e.value}
+    if isinstance(e, ast.Name):
+        return {e.id: 1}
+    if isinstance(e, ast.BinOp) and isinstance(e.op, (ast.Add, ast.Sub)):
+        l, r = _affine(e.left), _affine(e.right)
+        if l is None or r is None:
+            return None
+        sg = 1 if isinstance(e.op, ast.Add) else -1
+        out = dict(l)
+        for k, v in r.items():
+            out[k] = out.get(k, 0) + sg * v
+        return out
+    if isinstance(e, ast.BinOp) and isinstance(e.op, ast.Mult):
+        l, r = _affine(e.left), _affine(e.right)
+        if l is None or r is None:
+            return None
+        if set(l) <= {1}:
+            return {k: v * l.get(1, 0) for k, v in r.items()}
+        if set(r) <= {1}:
+            return {k: v * r.get(1, 0) for k, v in l.items()}
+    return None
+
+
 # ---------------------------------------------------------------------------
 def solve_structure(ctx, mod):
     """S5: core.solve uses one band format consistently."""
@@ -415,16 +442,15 @@ def solve_structure(ctx, mod):
             nsub += 1
             s = n.slice
             form = None
-            if isinstance(s, ast.BinOp) and isinstance(s.op, ast.Add) and \
-                    isinstance(s.right, ast.BinOp) and isinstance(
-                        s.right.op, ast.Mult) and isinstance(
-                            s.right.left, ast.Constant):
-                form = ('r+kc', s.right.left.value)
-            elif isinstance(s, ast.BinOp) and isinstance(s.op, ast.Mult) and \
-                    isinstance(s.left, ast.Constant):
-                form = ('diag', s.left.value - 1)
-            elif isinstance(s, ast.Name) or isinstance(s, ast.Constant):
-                form = ('col0', None)
+            lin = _affine(s)
+            if lin is not None:
+                cf = sorted(abs(v) for k, v in lin.items() if k != 1 and v)
+                if cf == [] or cf == [1]:
+                    form = ('col0', None)
+                elif len(cf) == 1:
+                    form = ('diag', cf[0] - 1)
+                elif len(cf) == 2 and cf[0] == 1:
+                    form = ('r+kc', cf[1])
             if form is None:
                 ctx.fail('C03.S5.solve', f'solve `{ast.unparse(n)}`',
                          'matrix subscript is not of the band forms '
@@ -444,12 +470,16 @@ def solve_structure(ctx, mod):
             txt = ast.unparse(n)
             consts = []
             for a in n.args:
-                for m in ast.walk(a):
-                    if isinstance(m, ast.BinOp) and isinstance(
-                            m.right, ast.Constant):
-                        consts.append((type(m.op).__name__, m.right.value))
-                if isinstance(a, ast.Constant):
-                    consts.append(('const', a.value))
+                la = _affine(a)
+                if la is None:
+                    continue
+                c0 = la.get(1, 0)
+                if set(la) <= {1}:
+                    consts.append(('const', c0))
+                elif c0 < 0:
+                    consts.append(('Sub', -c0))
+                elif c0 > 0:
+                    consts.append(('Add', c0))
             f = ast.unparse(n.func)
             if f == 'max':
                 ok = ('Sub', band) in consts and ('const', 0) in consts
